@@ -145,6 +145,9 @@ def body(ck, F, cfg):
                 ck.ok("R08.1", inst, detail=f"{rule}: {why}"[:280])
             else:
                 ck.fail("R08.1", inst, f"reachable panic site not discharged ({rule}): {kind} {st.get('callee', '')} -- {why}", st["sp"], kind="undischarged-panic")
+    # views whose length is not established by a passed guard: the lists handed to msm(..).unwrap() may then differ in length
+    for e_ in [e_ for e_ in log if e_["kind"] == "prefix-unproved"]:
+        ck.fail("R08.1", f"unproved-length:{e_['fn'].split('::')[-1]}", f"{e_['detail']} -- a downstream multiscalar multiplication over lists of unequal length panics in unwrap()", e_["sp"], kind="undischarged-panic")
     ck.extra["panic_sites"] = nsites
     ck.extra["sites_per_function"] = {k.split("::", 1)[-1][-70:]: v for k, v in per_fn.items()}
     ck.extra["reachable_functions"] = len(reachable)
